@@ -12,7 +12,7 @@ Qed.
     loader knows is known to both, with the same value constraint and the same
     requiredness — except the rows of the recorded finding C20-F1 *)
 Lemma schema_loader_agree :
-  forall r, In r (all_rows schema_tbl loader_tbl) -> guard_F1 r = false ->
+  forall r, In r (all_rows schema_tbl loader_tbl) -> guard_F1 fixed_F1a fixed_F1b r = false ->
             row_agrees schema_tbl loader_tbl r = true.
 Proof.
   intros r Hin Hg. assert (H := tables_agree). unfold tables_ok in H.
@@ -36,17 +36,17 @@ Proof.
 Qed.
 
 Lemma F1_refuted :
-  exists r, In r (all_rows pinned_schema_tbl pinned_loader_tbl) /\ guard_F1 r = true /\
+  exists r, In r (all_rows pinned_schema_tbl pinned_loader_tbl) /\ guard_F1 false false r = true /\
             row_agrees pinned_schema_tbl pinned_loader_tbl r = false.
 Proof.
   exists (ROpt "error_handlers" "redirect" "code").
   destruct (F1_rows_all_disagree (ROpt "error_handlers" "redirect" "code")) as [A B].
-  { unfold known_F1. simpl. tauto. }
+  { unfold known_F1, known_F1a, known_F1b. simpl. tauto. }
   split; [assumption | split; [reflexivity | assumption]].
 Qed.
 
 (** non-vacuity: the tables are not empty and most rows are unguarded *)
 Example tables_nonvacuous :
   Nat.leb 15 (length schema_tbl) && Nat.leb 15 (length loader_tbl) &&
-  Nat.leb 100 (length (filter (fun r => negb (guard_F1 r)) (all_rows schema_tbl loader_tbl))) = true.
+  Nat.leb 100 (length (filter (fun r => negb (guard_F1 false false r)) (all_rows schema_tbl loader_tbl))) = true.
 Proof. vm_compute. reflexivity. Qed.
